@@ -198,6 +198,32 @@ def run_case(contract_id, case, props, tier="quick", seed=0, diff=True):
         "assumptions": [],
         "solver_time_s": 0.0,
     }
+    if getattr(contract, "native_only", False):
+        # bounded native layer: the scenario is run on the real library only (share of the property that
+        # is the dependency's behaviour: JSON by pydantic, SMT-LIB text by z3, pixels by matplotlib)
+        cid0 = case_id(case)
+
+        def oid0(clause_name, prop):
+            return f"{prop}/{contract.target}/{clause_name}" + (f"[{cid0}]" if cid0 else "")
+
+        kind, Pn, res = run_native(contract, case, {})
+        report["paths"] = 1
+        if kind == "raise":
+            import traceback as _tb
+
+            for prop in props:
+                if prop in contract.props:
+                    report["obligations"].append({"id": oid0(f"native[no exception: {exc_name(res)}]", prop), "prop": prop, "kind": "raises", "path": 0, "bounded": contract.bounded or "native grid", "status": "refuted", "clause": "native[no exception]", "params": {}, "schedule": {}, "note": f"{exc_name(res)}: {res}"[:400], "raised": exc_name(res), "regions": {}, "trace": "".join(_tb.format_exception(type(res), res, res.__traceback__)[-3:])})
+            return report
+        for cl in contract.clauses(Pn, res, case):
+            for prop in cl.props:
+                if prop not in props:
+                    continue
+                r = discharge.check(cl.hyps + [z3.Not(cl.goal)], 30)
+                report["solver_time_s"] += r["time_s"]
+                report["obligations"].append({"id": oid0(cl.name, prop), "prop": prop, "kind": cl.kind, "path": 0, "bounded": cl.bounded or contract.bounded or "native grid", "status": "discharged" if r["answer"] == "unsat" else ("refuted" if r["answer"] == "sat" else "unknown"), "clause": cl.name, "params": {}, "schedule": {}, "note": cl.note, "raised": None, "regions": {}, "backend": r["backend"]})
+        report["diff_points"] = 1
+        return report
     try:
         results = eng.explore(fn)
     except sym.Unsupported as e:
@@ -388,6 +414,8 @@ def _differential(report, contract, case, path, P, pc, ctx, clauses, props, seed
         report["faults"].append(f"differential: precondition false natively at {vals}")
         return
     if kind == "raise":
+        if any(ob["path"] == pi and ob["clause"].startswith("requires[") and ob["status"] == "refuted" for ob in report["obligations"]):
+            return  # the engine refuted a dependency's precondition on this path: the native exception is that violation
         report["faults"].append(
             f"differential: engine path {path.prefix} ends normally but CPython raises {exc_name(res)}: {res} at {vals}"
         )
@@ -445,6 +473,13 @@ def replay(contract_id, case, clause_name, params, raised=None, schedule=None):
                     pins[m.group(2)] = v
     kind, Pn, res = run_native(contract, case, params, pins)
     obs = {"native_outcome": kind}
+    if clause_name.startswith("requires["):
+        # a dependency's documented precondition is violated: natively the dependency raises
+        obs["native_exception"] = f"{exc_name(res)}: {res}"[:500] if kind == "raise" else None
+        return {"confirmed": kind == "raise", "observation": obs}
+    if clause_name == "native[no exception]":
+        obs["native_exception"] = f"{exc_name(res)}: {res}"[:500] if kind == "raise" else None
+        return {"confirmed": kind == "raise", "observation": obs}
     if pins:
         obs["pinned"] = pins
     if clause_name.startswith("raises_only_if[") or clause_name.startswith("reaches_postcondition["):
